@@ -203,8 +203,10 @@ def run(ctx):
                         ctx.violation(dict(klass, predicate=v[0], edit=kind_e, where=where), "%s %s edit %s at byte %d: %s" % (kind, cname, kind_e, p, v[1]), case)
     if not ctx.expired():
         hit_window_sweep(ctx)
-    if thorough and not ctx.expired():
-        big_default(ctx)
+    if not ctx.expired():
+        short_chunk_then_suffix(ctx)
+    if not ctx.expired():
+        big_default(ctx, thorough)
     ctx.sample({"content": "text/40000", "config": "none max=9000", "ops": "w8191,w3,W", "expect": "file identical to the one written with a single call"})
     ctx.sample({"content": "rand/40000", "edit": "insert1 at byte 17999", "expect": "chunks ending before byte 17999 unchanged; identical chunk lists after the first common chunk start"})
 
@@ -294,12 +296,50 @@ def hit_window_sweep(ctx):
     ctx.bounds["hit_window_sweep"] = "windows taken from the library's own chunk ends, placed to end at every offset within 50 bytes of the effective minimum / maximum"
 
 
-def big_default(ctx):
-    """300 000 bytes with the default bounds: segmentation by k-byte pieces and cuts around every boundary"""
+def short_chunk_then_suffix(ctx):
+    """automatic chunking with an explicit end-of-chunk after k header bytes (k below, at and above the 48-byte window):
+    whatever the header was, both outputs start a chunk at the first byte of the shared suffix, so all following chunks
+    must be identical"""
+    # default limits and a suffix long enough for several chunk ends that are decided by the rolling hash (with a small
+    # maximum nearly every chunk would be cut by the size limit, whatever the hash says)
+    suffix = gen("rand", 300000, ctx.seed)
+    cline = "cfg comp=0 manual=0"
+    ks = (1, 2, 10, 47, 48, 49, 100)
+    heads = {k: [bytes([65 + j]) * k for j in range(3)] + [core.prng_bytes(k, 900 + k)] for k in ks}
+    ref = None
+    jobs = []
+    for k in ks:
+        for hi, h in enumerate(heads[k]):
+            jobs.append((k, hi, h))
+    for (k, hi, h) in jobs:
+        (f, m, st), = write_batch((cline, h + suffix, ["w%d,e,W" % k], True))
+        ctx.states += 1; ctx.evaluations += 1; ctx.transitions += 3
+        case = {"shortchunk": True, "k": k, "head": h.hex(), "kind": "rand", "n": 300000, "cline": cline}
+        klass = {"check": "C16", "content": "short-chunk-then-suffix", "comp": "none"}
+        if f is None:
+            ctx.violation(dict(klass, predicate="baseline-write-fails"), "header of %d bytes, end-chunk, suffix: %s" % (k, st), case)
+            continue
+        rows, offs = chunk_table(m)
+        if not rows or rows[0][2] != k:
+            continue      # the explicit end was not honoured as a chunk of its own: no common chunk start is guaranteed
+        ctx.nontrivial += 1
+        tail = rows[1:]
+        if ref is None:
+            ref = (tail, k, h)
+        elif tail != ref[0]:
+            ctx.violation(dict(klass, predicate="chunks-after-resynchronisation-differ", where="after-explicit-end"),
+                          "automatic chunking, %d header bytes then end-chunk then the same 300000-byte suffix: the chunks of the suffix differ from "
+                          "those after a %d-byte header (%d vs %d chunks)" % (k, ref[1], len(tail), len(ref[0])), dict(case, ref_k=ref[1], ref_head=ref[2].hex()))
+    ctx.bounds["short_chunk_then_suffix"] = "header lengths %s x 4 header contents, explicit end-chunk, shared 300000-byte suffix, default limits" % (ks,)
+
+
+def big_default(ctx, thorough=True):
+    """300 000 bytes with the default bounds (chunk ends decided by the rolling hash, not by the size limit): segmentation by
+    k-byte pieces and cuts around every boundary; quick tier: one content, uncompressed, every third position"""
     n = 300000
-    for kind in ("rand", "text"):
+    for kind in (("rand", "text") if thorough else ("rand",)):
         content = gen(kind, n, ctx.seed)
-        for cname, cline in (("none default", "cfg comp=0 manual=0"), ("zstd default", "cfg comp=2 manual=0")):
+        for cname, cline in ((("none default", "cfg comp=0 manual=0"), ("zstd default", "cfg comp=2 manual=0")) if thorough else (("none default", "cfg comp=0 manual=0"),)):
             (f0, m0, s0), = write_batch((cline, content, ["W"], True))
             if f0 is None:
                 ctx.violation({"check": "C16", "predicate": "baseline-write-fails", "content": kind}, "%s/%d %s: %s" % (kind, n, cname, s0), {"kind": kind, "cline": cline, "n": n, "ops": "W"})
@@ -309,7 +349,24 @@ def big_default(ctx):
             v = bounds_ok(rows0, 1, 10485760)
             if v:
                 ctx.violation({"check": "C16", "predicate": v[0], "content": kind}, "%s/%d %s: %s" % (kind, n, cname, v[1]), {"kind": kind, "cline": cline, "n": n, "ops": "W"})
-            near = sorted({p for b in offs0[1:] for p in range(b - 49, b + 50, 1 if "comp=0" in cline else 7) if 0 < p < n})
+            # locality of edits where the boundaries are hash-determined
+            if "comp=0" in cline:
+                offsets = range(-49, 50) if thorough else (-49, -48, -47, -24, -2, -1, 0, 1, 2, 24, 47, 48, 49)
+                ed = [(k, b + d) for b in offs0[1:] for d in offsets for k in ("replace", "insert1", "delete1") if 0 <= b + d < n]
+                for part, ch in zip(core.pmap(edit_batch, [(cline, c2, content) for c2 in core.chunks(ed, 20)]), core.chunks(ed, 20)):
+                    for (kind_e, p), (f, m, st) in zip(ch, part):
+                        ctx.states += 1; ctx.evaluations += 1; ctx.transitions += 1; ctx.nontrivial += 1
+                        case = {"kind": kind, "cline": cline, "n": n, "edit": [kind_e, p], "minmax": [1, 10485760]}
+                        if f is None:
+                            ctx.violation({"check": "C16", "predicate": "write-of-edited-content-fails", "content": kind, "comp": "none"}, "%s/%d %s edit %s@%d: %s" % (kind, n, cname, kind_e, p, st), case)
+                            continue
+                        rows1, offs1 = chunk_table(m)
+                        e2, pp, suffix0, delta = apply_edit(content, kind_e, p)
+                        v = judge_edit(rows0, offs0, rows1, offs1, pp, suffix0, delta) or bounds_ok(rows1, 1, 10485760)
+                        if v:
+                            ctx.violation({"check": "C16", "predicate": v[0], "edit": kind_e, "where": "near-boundary", "content": kind, "comp": "none"},
+                                          "%s/%d %s edit %s at byte %d: %s" % (kind, n, cname, kind_e, p, v[1]), case)
+            near = sorted({p for b in offs0[1:] for p in range(b - 49, b + 50, (1 if thorough else 3) if "comp=0" in cline else 7) if 0 < p < n})
             opsl = ["w%d,W" % c for c in near] + [",".join(["w%d" % k] * (n // k) + ["W"]) for k in (4096, 8191, 32768, 32769, 100000)]
             res = []
             for part in core.pmap(write_batch, [(cline, content, ch, False) for ch in core.chunks(opsl, 20)]):
@@ -327,6 +384,13 @@ def big_default(ctx):
 def replay(case, quiet=True):
     import os
     seed = int(os.environ.get("VERIF_SEED", "0") or 0)
+    if case.get("shortchunk"):
+        suffix = gen("rand", 300000, seed)
+        (f1, m1, s1), = write_batch((case["cline"], bytes.fromhex(case["head"]) + suffix, ["w%d,e,W" % case["k"]], True))
+        (f2, m2, s2), = write_batch((case["cline"], bytes.fromhex(case["ref_head"]) + suffix, ["w%d,e,W" % case["ref_k"]], True)) if "ref_k" in case else ((None, None, None),)
+        if f1 is None or f2 is None:
+            return {"violated": f1 is None, "detail": str(s1)}
+        return {"violated": chunk_table(m1)[0][1:] != chunk_table(m2)[0][1:]}
     if case.get("sweep"):
         (m, st), = sweep_batch((case["cline"], bytes.fromhex(case["w"]), [case["end"]]))
         if m is None:
